@@ -83,3 +83,7 @@ claim("C11", "exploration", "Hypothesis-generated exchange histories (all reques
       "Histories of up to 25 exchanges run through ECU.request with a real DBHandler on a temporary SQLite file; after disconnect() - also after cancellation or a caller exception - the scan_result rows must be exactly the expected "
       "list in transmission order: request bytes, reply bytes as received or NULL, exception, times, the client's state before the request, log mode; nothing while implicit logging is off. Exploration over histories.",
       "Scripted transport answers immediately (real loop because aiosqlite owns a thread); max_retry=0.")
+claim("C12", "exploration", "Hypothesis-generated recording histories against RandomUDSServer models through the real ECU client + DBHandler, databases with 1..3 runs / ECU names / property sets; differential replay through the real DBUDSServer",
+      "Histories with session changes, seed/key pairs, resets, reads/writes/routines and repeated requests are recorded into a real SQLite database through ECU.request; DBUDSServer built from that database must reproduce the reply bytes captured "
+      "on the recording wire step by step (silence where nothing was received), selected by ECU name and/or properties among other runs. Exploration over histories and database layouts.",
+      "Presupposition of the statement is checked per step (client state == recorded ECU state); suppressed state-changing requests are excluded because the client cannot observe them; unanswered requests in a non-default state are a recorded known finding.")
